@@ -16,10 +16,11 @@
 //
 // Classes found by this monitor and since repaired in /repo (0413aaf0, ec59b228, 1c3d5b14, 17dacc0c;
 // /verif/known/C13.json is empty, details in FINDINGS.md), former cause:
-//   msg-output/wrong-script/len76                         lib/btc/funcs.go:256  WritePutLen `<=` OP_PUSHDATA1
-//   wrote-tx-although-unfundable/amount-overflow          lib/btc/funcs.go:325,348; wallet/send.go:50,90 (uint64 wrap)
-//   wrote-tx-although-unfundable/f-first-amount-below-fee wallet/send.go:46     `am -= curFee` underflow
-//   (was) no-tx/busy-hang/minsig+rfc6979                  wallet/signtx.go:118-139 + lib/btc/ecdsa.go:55-65
+//
+//	msg-output/wrong-script/len76                         lib/btc/funcs.go:256  WritePutLen `<=` OP_PUSHDATA1
+//	wrote-tx-although-unfundable/amount-overflow          lib/btc/funcs.go:325,348; wallet/send.go:50,90 (uint64 wrap)
+//	wrote-tx-although-unfundable/f-first-amount-below-fee wallet/send.go:46     `am -= curFee` underflow
+//	(was) no-tx/busy-hang/minsig+rfc6979                  wallet/signtx.go:118-139 + lib/btc/ecdsa.go:55-65
 package main
 
 import (
@@ -120,16 +121,7 @@ func main() {
 	// cases
 	nCases := run.N(420, 20000)
 	cr := run.Rand("cases")
-	vlib.Parallel(nCases, 14, func(i int) {
-		r := cr.Fork(fmt.Sprint("c", i))
-		w := good[i%len(good)]
-		dir := filepath.Join(tmp, fmt.Sprintf("case%d", i))
-		tc := time.Now()
-		outs := runCase(walletBin, dir, w, r, i)
-		if os.Getenv("VERIF_DEBUG") != "" && time.Since(tc) > 3*time.Second {
-			fmt.Fprintf(os.Stderr, "case %d took %v\n", i, time.Since(tc))
-		}
-		os.RemoveAll(dir)
+	merge := func(outs []*outcome, wantSample bool) {
 		mu.Lock()
 		defer mu.Unlock()
 		for _, o := range outs {
@@ -146,11 +138,44 @@ func main() {
 				run.Count("violations_by_class/"+v.Class, 1)
 				run.Violation(v.Class, v.What, v.Extra)
 			}
-			if o.sample != nil && run.WantSample() && (i%37 == 0 || i < 3) {
+			if o.sample != nil && run.WantSample() && wantSample {
 				run.Sample(o.sample)
 			}
 		}
+	}
+	vlib.Parallel(nCases, 14, func(i int) {
+		r := cr.Fork(fmt.Sprint("c", i))
+		w := good[i%len(good)]
+		dir := filepath.Join(tmp, fmt.Sprintf("case%d", i))
+		tc := time.Now()
+		outs := runCase(walletBin, dir, w, r, i)
+		if os.Getenv("VERIF_DEBUG") != "" && time.Since(tc) > 3*time.Second {
+			fmt.Fprintf(os.Stderr, "case %d took %v\n", i, time.Since(tc))
+		}
+		os.RemoveAll(dir)
+		merge(outs, i%37 == 0 || i < 3)
 	})
+
+	// directed family: DER boundary shapes of predicted RFC 6979 signatures (directed.go)
+	var dw []*wcfg
+	for _, w := range good {
+		if w.AType == "p2kh" || w.AType == "segwit" { // all three ECDSA input kinds are spendable in these modes
+			dw = append(dw, w)
+		}
+	}
+	nDir, maxRuns := run.N(3, 12), run.N(14, 30)
+	dr := run.Rand("directed")
+	for k := 0; k < nDir && len(dw) > 0; k++ {
+		r := dr.Fork(fmt.Sprint("d", k))
+		w := dw[r.Intn(len(dw))]
+		dir := filepath.Join(tmp, fmt.Sprintf("directed%d", k))
+		outs := runDirected(walletBin, dir, w, r, maxRuns)
+		os.RemoveAll(dir)
+		merge(outs, k == 0)
+	}
+	if run.Get("directed/shape/p2wpkh/R-top-80") == 0 || run.Get("directed/shape/p2sh-p2wpkh/R-top-80") == 0 || run.Get("directed/shape/p2pkh/R-top-80") == 0 {
+		run.Inconclusive("directed family: not every input kind was exercised with an R whose top byte is 0x80")
+	}
 
 	run.Assume("the keys of a wallet are learned from the wallet itself (`-l -atype=pks`, `-l`); that they are the right keys for the seed is C14's subject")
 	run.Assume("default change script = script of the output spent by the first input (help text of -change: 'otherwise return it to the 1st input'); a change output is expected iff inputs - payments - fee > 0 (the wallet documents no dust rule)")
@@ -449,6 +474,7 @@ func runStep(bin, dir string, w *wcfg, st *state, q *request, step int) *outcome
 	if q.TxFn == "" && nf[0] != displayHex(tx.Txid())[:8]+".txt" {
 		o.inc("txfile_name_not_txid_prefix")
 	}
+	o.tx, o.txFile = tx, nf[0]
 	n0 := len(o.vios)
 	judgeSend(o, w, st, q, tx)
 	if len(o.vios) == n0 {
